@@ -417,6 +417,9 @@ def run(cx):
     # channel with a valid CRC): shared with C16.e / C16.f
     from bits import check_headers
     check_headers(cx, "C01.j", "C01.k")
+    # "with altered contents": a reassembled packet is the first total_size bytes of its buffer on every path
+    from props.C04 import inst_sizes
+    inst_sizes(cx, "C01.t")
     # a slot the window passes is released whatever its state: stale fragments must not leak into the
     # packet that maps to the same slot one window later
     from props.shared import window_walks
